@@ -6,6 +6,7 @@ import LiquidVerif.Lemmas.ExcFlowT1d
 import LiquidVerif.Lemmas.ExcFlowT2
 import LiquidVerif.Lemmas.ExcFlowT3
 import LiquidVerif.Lemmas.ExcFlowSites
+import LiquidVerif.Model.ExcChain
 /-!
 # C02 — only Liquid errors escape parsing and rendering
 
@@ -134,6 +135,8 @@ example : knownLeak .ceil_ float_inf 0 none = false ∧ knownLeak .slice_ list_i
 
 /-- the repaired cells are inside the theorem: `ceil` of `inf` is a `FilterArgumentError` now -/
 example : runFilter .ceil_ float_inf [] = [.error .FilterArgumentError] := by rfl
+example : runFilter .truncate_ str_other [float_inf] = [.error .FilterArgumentError] := by rfl
+example : runFilter .index_ undefined [int_pos] = [.ok ()] := by rfl
 example : runFilter .sum_ list_str [] = [.ok ()] := by rfl
 example : runFilter .base64_decode_ str_b64_nonutf8 [] = [.error .FilterError] := by rfl
 
@@ -156,10 +159,6 @@ theorem filterContained_iff (f : FilterName) (l : Cls) (args : List Cls) :
 /-- int → str digit limit: any filter that stringifies an int with more than 4300 digits (`ValueError`) -/
 theorem escapes_digits_counterexample : ¬ FilterContained .upcase_ int_giant [] := by
   rw [filterContained_iff]; decide
-theorem escapes_truncate_counterexample : ¬ FilterContained .truncate_ str_other [float_inf] := by
-  rw [filterContained_iff]; decide
-theorem escapes_truncatewords_counterexample : ¬ FilterContained .truncatewords_ str_other [float_ninf] := by
-  rw [filterContained_iff]; decide
 theorem escapes_compact_counterexample : ¬ FilterContained .compact_ list_dict_gap [str_key] := by
   rw [filterContained_iff]; decide
 theorem escapes_compact_index_counterexample : ¬ FilterContained .compact_ str_empty [int_pos] := by
@@ -169,8 +168,6 @@ theorem escapes_date_counterexample : ¬ FilterContained .date_ int_ts [str_othe
 theorem escapes_date_digits_counterexample : ¬ FilterContained .date_ str_bigdigits [str_other] := by
   rw [filterContained_iff]; decide
 theorem escapes_json_counterexample : ¬ FilterContained .json_ list_int [int_big] := by
-  rw [filterContained_iff]; decide
-theorem escapes_index_counterexample : ¬ FilterContained .index_ undefined [int_pos] := by
   rw [filterContained_iff]; decide
 theorem escapes_sum_counterexample : ¬ FilterContained .sum_ list_infs [] := by
   rw [filterContained_iff]; decide
@@ -183,10 +180,49 @@ theorem escapes_datetime_counterexample : ¬ FilterContained .datetime_ float_na
 theorem escapes_unit_counterexample : ¬ FilterContained .unit_ float_inf [str_empty] := by
   rw [filterContained_iff]; decide
 
+/-! ## Chains of filters -/
+
+/-- **"templates combining any built-in/extra … filters"** — chains of any length, by induction over the chain.
+The result of a link is any member of `resultCls f`; if every link, on every class its left value can have, is outside
+the known-leak cells (`chainOk`, decidable), every outcome of `l | f₁: args₁ | f₂: args₂ | …` is success or a
+`LiquidError`. -/
+theorem chain_contained_partial (chain : List Link) (l : Cls) (h : chainOk chain l = true) :
+    ∀ o ∈ runChain chain l, Contained o := by
+  induction chain generalizing l with
+  | nil =>
+    intro o ho
+    have : o = .ok () := List.mem_singleton.mp ho
+    rw [this]; trivial
+  | cons link rest ih =>
+    obtain ⟨f, args⟩ := link
+    intro o ho
+    simp only [chainOk, Bool.and_eq_true, Bool.not_eq_true', List.all_eq_true] at h
+    obtain ⟨hk, hrest⟩ := h
+    simp only [cellKnown, Bool.or_eq_false_iff] at hk
+    obtain ⟨⟨⟨h0, h1⟩, h2⟩, h3⟩ := hk
+    rcases mem_bind ho with ⟨_, _, ho⟩ | ⟨e, he, rfl⟩
+    · obtain ⟨c, hc, ho⟩ := List.mem_flatMap.mp ho
+      exact ih c (hrest c hc) o ho
+    · exact escapes_are_liquid_partial f l args h0 h1 h2 h3 _ he
+
+/-- non-vacuity: `x | upcase | ceil`, `x | split: ',' | sort | join: x`, `x | size | times: 2 | append: 'a'` -/
+example : chainOk [(.upcase_, []), (.ceil_, [])] list_dict = true := by decide
+example : chainOk [(.split_, [str_other]), (.sort_, []), (.join_, [str_pct])] str_other = true := by decide
+example : chainOk [(.size_, []), (.times_, [int_pos])] dict_ = true := by decide
+
+/-- the full statement is false for chains too: `x | times: y | append: 'a'` can build an int of more than 4300
+digits and stringify it (`ValueError`) although neither operand has that many -/
+theorem chain_digits_counterexample :
+    ¬ ∀ o ∈ runChain [(.times_, [int_huge]), (.append_, [str_other])] int_huge, Contained o := by
+  intro h
+  have hall : allContained (runChain [(.times_, [int_huge]), (.append_, [str_other])] int_huge) = true :=
+    List.all_eq_true.mpr (fun o ho => (contained_iff o).mp (h o ho))
+  revert hall; decide +kernel
+
 /-! ## Tag-level sites -/
 
 /-- **"… from the built-in or extra tags … and expressions"** — the part that holds: at every modelled site
-(output, range bounds, `for`/`tablerow` options, `translate` count, `contains`, `include` name, `cycle` items), for every
+(57 sites: output/echo/capture, assign, range bounds, `for`/`tablerow` iterables and options, comparisons, `contains`, equality with `empty`/`blank`, truthiness, subscripts and dotted paths, `case`/`when`, `cycle`, `include`/`render` names and arguments, `ifchanged`, `with`, macro arguments, `translate` variables and count, ternaries, `liquid`, keyword arguments of `default`/`t`/unknown keywords), for every
 class of the value in the hole and both kinds of tolerance mode, every outcome is contained unless the cell is a
 known leak. -/
 theorem sites_contained_partial (s : Site) (x : Cls) (strict : Bool) (h : knownSiteLeak s x = false) :
